@@ -75,9 +75,18 @@ class NegativeFluentRemover(IdentityDagWalker):
                         nf = k
                         break
             else:
-                # make a new one
+                # make a new one; its name must also differ from the names of the
+                # negated fluents created so far (they are not in the problem yet)
+                used_names = {nf.name for nf in self._fluent_mapping.values()}
+                new_name = get_fresh_name(self._problem, f"not_{f.name}")
+                count = 0
+                while new_name in used_names:
+                    new_name = get_fresh_name(
+                        self._problem, f"not_{f.name}_{count}"
+                    )
+                    count += 1
                 nf = Fluent(
-                    get_fresh_name(self._problem, f"not_{f.name}"),
+                    new_name,
                     f.type,
                     f.signature,
                     f._env,
